@@ -63,6 +63,14 @@ def _items():
             '#[verifier::external_body]\n'
             'pub fn san3_%s(x: %s) -> (r: %s) ensures r == SPEC_SAN3_%s(x) { unimplemented!() }\n'
             % (T, t, t, t, t, t, T))
+        if t in FLOAT_TYPES:
+            # maps NaN (and negatives) to a number: a sanitizer that is NOT the identity on NaN
+            add('san4_%s' % t,
+                'pub fn san4_%s(x: %s) -> %s { if x >= 0.0 { x } else { 0.0 } }\n' % (t, t, t),
+                'pub uninterp spec fn SPEC_SAN4_%s(x: %s) -> %s;\n'
+                '#[verifier::external_body]\n'
+                'pub fn san4_%s(x: %s) -> (r: %s) ensures r == SPEC_SAN4_%s(x) { unimplemented!() }\n'
+                % (T, t, t, t, t, t, T))
         add('ONE_%s' % T, 'pub const ONE_%s: %s = 1 as %s;\n' % (T, t, t), 'pub const ONE_%s: %s = 1 as %s;\n' % (T, t, t))
         add('pred_%s' % t,
             'pub const fn pred_%s(x: &%s) -> bool { %s }\n' % (t, t, pred_body),
